@@ -16,3 +16,28 @@ def iterators_only_next(F, rep, rule, adts=None, floor=1):
         rep.require(names == ["next"], rule, "no-override:%s" % imp["self_adt"], "%s:%d:%d" % (sp["file"], sp["line"], sp["col"]), "implements only next()",
                     "impl Iterator for %s overrides provided methods %s: their agreement with next() is not established" % (imp["self_adt"], [x for x in names if x != "next"]))
     rep.floor(rule, "Iterator impls defining only next", n, floor)
+
+
+_PREMISE_MEMO = {}
+
+
+def premise(ctx, rep, pid, what, rules=None, key_filter=None, where="-"):
+    """Run (part of) another property's rule module as a premise of this one and require it to hold: what this property's rules take
+    for granted about the code they do not look at themselves (field decoding, the read template, the string-table rule, ...).
+    `rules`: names of the other module's rules that matter here (None = all); `key_filter`: substring(s) the violation key must contain.
+    The sub-report is computed once per process and fact base."""
+    import importlib
+    from ..runner import Report
+    F = ctx.facts()
+    mk = (id(F), pid)
+    sub = _PREMISE_MEMO.get(mk)
+    if sub is None:
+        sub = Report(pid)
+        importlib.import_module("analyzer.rules." + pid.lower()).run(ctx, sub)
+        _PREMISE_MEMO[mk] = sub
+    bad = [v for v in sub.violations if (rules is None or v.rule in rules)
+           and (key_filter is None or any(k in v.key for k in key_filter))]
+    n = len([o for o in sub.obligations if rules is None or o["rule"] in rules])
+    rep.require(not bad, "premise", "%s: %s" % (pid, what), where, "%s (%d obligations of %s%s hold)" % (what, n, pid, "" if rules is None else " rules " + "/".join(sorted(rules))),
+                "a premise of this property does not hold - %s: %s" % (what, "; ".join("%s: %s" % (v.key, v.msg[:160]) for v in bad[:3])))
+    return not bad
